@@ -180,3 +180,34 @@ func VerifC15_LatestTimestamp(h *zz.H) {
 		h.Assert(ln.Update[0].Val.GetIntVal() == max, "C15: the latest-timestamp leaf carries the greatest accepted target timestamp")
 	}
 }
+
+// VerifC15_RefreshRace: the collector's periodic metadata/size refresh runs concurrently with a
+// target's update stream (C15 d): no unsynchronised access to shared state.
+func VerifC15_RefreshRace(h *zz.H) {
+	c := New([]string{vDev})
+	vSetClock(h, "now")
+	a := h.Atom("leaf")
+	h.Assume(a != "meta" && a != "*")
+	switch h.Range("state", 0, 2) {
+	case 1:
+		c.Sync(vDev) // a synced target
+	case 2:
+		c.Connect(vDev)
+	}
+	// D10 (known finding / fixed): Target.sync written by the refresh, read by the update stream
+	h.Known("D10-target-sync-race", true, "DATA RACE")
+	done := make(chan bool, 2)
+	go func() {
+		c.GnmiUpdate(vUpdate(vDev, []string{a}, 0, 1, vIntVal(1)))
+		c.GnmiUpdate(vUpdate(vDev, []string{a}, 0, 2, vIntVal(2)))
+		done <- true
+	}()
+	go func() {
+		c.UpdateMetadata()
+		c.UpdateSize()
+		done <- true
+	}()
+	<-done
+	<-done
+	h.Assert(vMetaInt(c, vDev, metadata.LeafCount) == 1, "C15: counters stay truthful under a concurrent refresh")
+}
